@@ -391,6 +391,16 @@ func exploreNode(c *vx.Ctx, props string, maxDev int, bfsDepth int, st *exploreS
 	for _, d := range singles {
 		jobs = append(jobs, nodeJob(props, d))
 	}
+	// Duplicate strategy answer (C02 "late or duplicate"): the strategy proposes when the round is entered and sends a
+	// second, different proposal within the next events.
+	for pos, ev := range script {
+		if ev != "SR" || (pos > 0 && script[pos-1] != "TF" && script[pos-1] != "V:c:oh:nil") {
+			continue
+		}
+		for q := pos + 1; q <= pos+5 && q <= len(script); q++ {
+			jobs = append(jobs, nodeJob(props, fmt.Sprintf("%d:~SR:propose", pos), fmt.Sprintf("%d:+PROP", q)))
+		}
+	}
 	c.Extra["engine_script_len"] = len(script)
 	c.Extra["engine_alphabet_full"] = len(nodeAlphabet("full"))
 	c.Extra["engine_single_deviations"] = len(singles)
@@ -657,6 +667,14 @@ func exploreBare(c *vx.Ctx, props string, maxDev int, bfsDepth int, st *exploreS
 		}
 	}
 	c.Extra["bare_sm_batched_input_executions"] = nBatch
+	for pos, ev := range script {
+		if ev != "SR" || pos == 0 || script[pos-1] != "ENT" {
+			continue
+		}
+		for q := pos + 1; q <= pos+5 && q <= len(script); q++ {
+			jobs = append(jobs, job(fmt.Sprintf("%d:~SR:propose", pos), fmt.Sprintf("%d:+PROP", q)))
+		}
+	}
 	c.Extra["bare_sm_script_len"] = len(script)
 	c.Extra["bare_sm_alphabet"] = len(alpha)
 	c.Extra["bare_sm_single_deviations"] = len(singles)
